@@ -95,7 +95,7 @@ def float_close(a, b, rel, abs_):
         return False
     return abs(x - y) <= rel * max(abs(x), abs(y)) + abs_
 
-def compare_lines(impl, model, mask, tol=None):
+def compare_lines(impl, model, mask, tol=None, value_eq=False):
     """Compare two output lines field by field.
     mask: set of field classes that this property owns (others are ignored, counted as drift).
     tol: None -> floats must be bit-identical; (rel, abs) -> a float difference inside the tolerance is
@@ -126,6 +126,8 @@ def compare_lines(impl, model, mask, tol=None):
                 if c not in mask:
                     w = "drift"
                 elif c == "float":
+                    if value_eq and float_close(x, y, 0.0, 0.0):
+                        continue          # equal as f32 VALUES (-0.0 == +0.0)
                     if tol is not None and float_close(x, y, tol[0], tol[1]):
                         w = "soft"
                     else:
